@@ -12,7 +12,7 @@ import subprocess
 import sys
 
 VERIF = os.path.dirname(os.path.dirname(os.path.abspath(__file__)))
-SCR = "/tmp/wt_verify"
+SCR = os.environ.get("SEEDED_SCRATCH", "/tmp/wt_verify")
 
 
 def sh(cmd, cwd=None, env=None, timeout=3600):
